@@ -661,13 +661,10 @@ func (x *Exec) callContract(st *State, con *Contract, recv *Val, args []Val, e *
 	}
 	// preconditions
 	for _, rq := range con.Requires {
-		for k, conj := range x.clauseConjuncts(st, rq, nil) {
-			name := fmt.Sprintf("%s/call.%s#%d.%s", x.key, shortKey(con.Key), ord, rq.Name)
-			if k > 0 {
-				name += fmt.Sprintf(".%d", k+1)
-			}
-			x.oblige(st, name, "call-requires", rq.Text, conj)
-			x.assume(st, conj)
+		for _, p := range x.clauseParts(st, rq, nil) {
+			name := fmt.Sprintf("%s/call.%s#%d.%s%s", x.key, shortKey(con.Key), ord, rq.Name, p.suffix)
+			x.oblige(st, name, "call-requires", rq.Text, p.t)
+			x.assume(st, p.t)
 		}
 	}
 	pre := st.clone()
@@ -708,6 +705,19 @@ func (x *Exec) callContract(st *State, con *Contract, recv *Val, args []Val, e *
 			v.Arr = x.allocRef(st, "res")
 		} else if isObjType(r.Type()) || con.freshResult(i, r) {
 			v = Val{Typ: r.Type(), T: x.allocRef(st, "res")}
+			// the callee filled the object: its fields are unconstrained values of the post-state
+			// (not entry-heap values), described only by the callee's postconditions
+			ot := r.Type()
+			if p, ok := ot.Underlying().(*types.Pointer); ok {
+				ot = p.Elem()
+			}
+			if isObjType(ot) {
+				for _, loc := range x.objLocs(v.T, ot) {
+					if !loc.whole && !loc.isElems {
+						x.havocLoc(st, loc)
+					}
+				}
+			}
 		} else {
 			v = x.freshVal(st, fmt.Sprintf("%s_res%d", con.Fn.Name(), i), r.Type())
 		}
@@ -780,6 +790,16 @@ func (x *Exec) modLocations(pre *State, e ast.Expr) []modLoc {
 				return out
 			case "ghostFail":
 				return []modLoc{{comp: "ghost.iofail", sort: SBool, whole: true}}
+			case "ghostHandles":
+				// file and reader handles (identity, positions) — not file contents or sizes
+				var out []modLoc
+				for _, g := range ghostIOComps {
+					switch g.name {
+					case "ghost.fid", "ghost.fpos", "ghost.rfile", "ghost.rpos", "ghost.fisize":
+						out = append(out, modLoc{comp: g.name, sort: g.sort(x), whole: true})
+					}
+				}
+				return out
 			case "ghostSpawn":
 				return []modLoc{{comp: "ghost.spawned", sort: SInt, whole: true}}
 			case "ghostClock":
@@ -865,7 +885,15 @@ func (x *Exec) objLocs(r *Term, t types.Type) []modLoc {
 
 func (x *Exec) elemLocs(arr *Term, el types.Type) []modLoc {
 	if isObjType(el) {
-		x.fail("modifies elems(...) of object elements is not supported")
+		// object elements: the field components of the element type are named wholesale (coarse:
+		// callers lose what they knew about those fields of every object of the type)
+		ms := &modSet{vars: map[types.Object]bool{}, comps: map[string]Sort{}, imprecise: map[string]bool{}}
+		x.markObjComps(ms, el)
+		var out []modLoc
+		for name, srt := range ms.comps {
+			out = append(out, modLoc{comp: name, sort: srt, whole: true})
+		}
+		return out
 	}
 	if isSliceT(el) {
 		base := "M." + typeKey(el)
@@ -1231,7 +1259,7 @@ func (x *Exec) globalOnlyClause(mc *Clause) bool {
 		return true
 	})
 	if call, isCall := ast.Unparen(mc.Expr).(*ast.CallExpr); isCall {
-		if id, isId := call.Fun.(*ast.Ident); isId && (id.Name == "ghostFail" || id.Name == "ghostSpawn" || id.Name == "ghostClock" || id.Name == "ghostIO") {
+		if id, isId := call.Fun.(*ast.Ident); isId && (id.Name == "ghostFail" || id.Name == "ghostSpawn" || id.Name == "ghostClock" || id.Name == "ghostIO" || id.Name == "ghostHandles") {
 			return false // whole-component designators stay as they are
 		}
 	}
@@ -1254,6 +1282,14 @@ func (x *Exec) scanModClause(ms *modSet, mc *Clause) {
 				return
 			case "ghostFail":
 				ms.add("ghost.iofail", SBool)
+				return
+			case "ghostHandles":
+				for _, g := range ghostIOComps {
+					switch g.name {
+					case "ghost.fid", "ghost.fpos", "ghost.rfile", "ghost.rpos", "ghost.fisize":
+						ms.add(g.name, g.sort(x))
+					}
+				}
 				return
 			case "ghostSpawn":
 				ms.add("ghost.spawned", SInt)
